@@ -7,7 +7,7 @@ package tlcp
 // around the genuine length); the receiver's real Read path must hand out only a prefix of the genuine
 // plaintext, made of whole records, and then fail for ever.
 //
-//verif:harness props=C05,C04 paths=400000 tpaths=4000000 split reach=allDelivered,noneDelivered,someDelivered,failed
+//verif:harness props=C05 paths=400000 tpaths=4000000 split reach=allDelivered,noneDelivered,someDelivered,failed
 func VerifHarness_C05_stream() {
 	kind := verifSplitInt("cipher", vcGCM, vcCBC)
 	verifTag("cipher", kind)
@@ -31,7 +31,7 @@ func VerifHarness_C05_stream() {
 		glen[i] = 5 + (int(wt.out[off+3])<<8 | int(wt.out[off+4]))
 		off += glen[i]
 	}
-	verifAssert("C04.stream.headerLengthsConsistent", off == len(wt.out))
+	verifAssert("C05.stream.headerLengthsConsistent", off == len(wt.out))
 	// the attacker's stream: m records; each record's length is a case split around the genuine lengths
 	maxm := verifBound(1, 2) // CBC: every feasible padding length of every attacker record is its own path
 	if kind == vcGCM {
